@@ -34,7 +34,8 @@ var replayFile = flag.String("replay", "", "replay one recorded case (no explore
 
 // a decode takes microseconds (the worst count-driven loops found take seconds); a worker
 // that shows no progress for this long is reported as hung
-const watchdog = 300 * time.Second
+const watchdog = 60 * time.Second         // first detection
+const watchdogConfirm = 120 * time.Second // the case alone in a fresh worker, before it is reported
 const vlimitKB = 4000000
 
 // ---------------------------------------------------------------- worker handle
@@ -49,9 +50,13 @@ type wproc struct {
 	last   int64 // unix nano of last progress
 	hung   int32
 	gone   int32
+	stage  byte // API the worker announced last: n NewTx, t TxSize, b block, v VLen
+	wd     time.Duration
 }
 
-func spawn() *wproc {
+func spawn() *wproc { return spawnWd(watchdog) }
+
+func spawnWd(wd time.Duration) *wproc {
 	// The worker applies RLIMIT_AS (what `ulimit -v` sets) to itself before it reads the
 	// first job; that saves one fork+exec of a shell per restart (tens of thousands).
 	cmd := exec.Command(os.Args[0], "--worker")
@@ -73,7 +78,7 @@ func spawn() *wproc {
 		ev.HarnessError("cannot start worker: %v", err)
 	}
 	epw.Close()
-	w := &wproc{cmd: cmd, in: in, out: bufio.NewReaderSize(op, 1<<16), errEOF: make(chan struct{})}
+	w := &wproc{cmd: cmd, in: in, out: bufio.NewReaderSize(op, 1<<16), errEOF: make(chan struct{}), wd: wd}
 	atomic.StoreInt64(&w.last, time.Now().UnixNano())
 	go func() { // stderr: drop the decoder's own chatter, keep the head of anything else
 		r := bufio.NewReaderSize(ep, 1<<16)
@@ -95,11 +100,11 @@ func spawn() *wproc {
 	}()
 	go func() { // watchdog
 		for {
-			time.Sleep(5 * time.Second)
+			time.Sleep(2 * time.Second)
 			if atomic.LoadInt32(&w.gone) == 1 {
 				return
 			}
-			if time.Since(time.Unix(0, atomic.LoadInt64(&w.last))) > watchdog {
+			if time.Since(time.Unix(0, atomic.LoadInt64(&w.last))) > w.wd {
 				atomic.StoreInt32(&w.hung, 1)
 				w.cmd.Process.Kill()
 				return
@@ -126,6 +131,7 @@ type death struct {
 	stderr string
 	status string
 	hung   bool
+	stage  byte
 }
 
 // run sends one job; onBatch is called for every completed batch. Returns nil when the
@@ -144,9 +150,10 @@ func (w *wproc) run(j *jobSpec, onBatch func(lo, hi int, r *batchResult)) (d *de
 			switch c {
 			case '.':
 				dots++
-				if dots&63 == 1 {
-					atomic.StoreInt64(&w.last, time.Now().UnixNano())
-				}
+				w.stage = 0
+				atomic.StoreInt64(&w.last, time.Now().UnixNano())
+			case 'n', 't', 'b', 'v':
+				w.stage = c
 			case 'R':
 				line, err := w.out.ReadString('\n')
 				if err != nil {
@@ -192,7 +199,7 @@ dead:
 	err := w.cmd.Wait()
 	atomic.StoreInt32(&w.gone, 1)
 	w.errMu.Lock()
-	d = &death{stderr: string(w.errBuf), hung: atomic.LoadInt32(&w.hung) == 1}
+	d = &death{stderr: string(w.errBuf), hung: atomic.LoadInt32(&w.hung) == 1, stage: w.stage}
 	w.errMu.Unlock()
 	if err != nil {
 		d.status = err.Error()
@@ -227,7 +234,11 @@ func deathKey(d *death, kind string) (key, what string) {
 	case strings.Contains(s, "nil pointer dereference") && strings.Contains(s, "BuildTxListExt.func"):
 		return "block/nil-element-kills-process", "Block.BuildTxListExt(true) hashes the transactions in goroutines; a transaction that btc.NewTx decoded to a Tx holding a nil *TxIn/*TxOut makes such a goroutine panic (nil pointer dereference), which no caller can recover: the process dies"
 	case d.hung:
-		return "hang/no-progress-300s", "the decode did not return within 300 s"
+		api := map[byte]string{'n': "NewTx", 't': "TxSize", 'b': "NewBlock-BuildTxListExt", 'v': "VLen"}[d.stage]
+		if api == "" {
+			api = "harness"
+		}
+		return "hang/" + api + "-does-not-return", "btc." + api + " did not return: the single-threaded worker made no progress for the watchdog time (60 s in the sweep, 120 s when the case is re-run alone in a fresh worker; a decode normally takes microseconds) and was killed"
 	case strings.Contains(s, "out of memory") || strings.Contains(s, "cannot allocate memory"):
 		if kind == "block" && strings.Contains(s, "BuildTxListExt") && !strings.Contains(s, "btc.NewTx(") {
 			return "block/txcount-driven-fatal-oom", "the process dies with a fatal (unrecoverable) out-of-memory error under ulimit -v 4 GB: Block.BuildTxListExt does make([]*Tx, TxCount) with the count from the wire (" + normPanic(head) + ")"
@@ -257,6 +268,9 @@ type state struct {
 	deaths    map[string][]deathCase // by key
 	deathN    int
 	spawns    int
+	hangs     map[string]int
+	stopFam   map[string]bool
+	dropped   int
 	retired   int
 	maxFrac   float64
 	maxFracHx string
@@ -265,6 +279,7 @@ type state struct {
 }
 
 type deathCase struct {
+	Tail   string
 	Hex    string
 	Kind   string
 	DoHash bool
@@ -308,7 +323,7 @@ func (s *state) merge(fam string, r *batchResult) {
 		} else {
 			a.Count += v.Count
 			if len(v.Hex) < len(a.Hex) || (len(v.Hex) == len(a.Hex) && v.Hex < a.Hex) {
-				a.Hex, a.DoHash, a.What, a.Kind = v.Hex, v.DoHash, v.What, v.Kind
+				a.Hex, a.Tail, a.DoHash, a.What, a.Kind = v.Hex, v.Tail, v.DoHash, v.What, v.Kind
 			}
 		}
 	}
@@ -338,6 +353,10 @@ func (s *state) next() *jobSpec {
 		if s.stop {
 			s.queue = nil
 		}
+		for len(s.queue) > 0 && s.stopFam[famName(s.queue[0])] {
+			s.queue = s.queue[1:]
+			s.dropped++
+		}
 		if len(s.queue) > 0 {
 			j := s.queue[0]
 			s.queue = s.queue[1:]
@@ -360,7 +379,7 @@ func (s *state) finished() {
 }
 
 // genCase regenerates the bytes of case idx of a job in the parent.
-func genCase(j *jobSpec, idx int, bases []base, blocks []bbase) (c []byte, kind string, dohash bool) {
+func genCase(j *jobSpec, idx int, bases []base, blocks []bbase) (c []byte, kind string, dohash bool, cont []byte) {
 	alpha := alpha8
 	if j.Alpha == 256 {
 		alpha = make([]byte, 256)
@@ -370,28 +389,38 @@ func genCase(j *jobSpec, idx int, bases []base, blocks []bbase) (c []byte, kind 
 	}
 	switch j.Kind {
 	case "tx":
-		return txGen(&bases[j.Base], j.Fam, alpha, idx), "tx", false
+		return txGen(&bases[j.Base], j.Fam, alpha, idx), "tx", false, txTail(&bases[j.Base], j.Fam, idx)
 	case "short":
-		return shortGen(idx), "tx", false
+		return shortGen(idx), "tx", false, []byte{1, 0, 0, 0, 0, 0}
+	case "vlen":
+		return vlenGen(idx), "vlen", false, nil
 	case "block":
 		c, dohash = blockGen(&blocks[j.Base], j.Fam, idx)
-		return c, "block", dohash
+		return c, "block", dohash, blockTail(&blocks[j.Base], j.Fam, idx)
 	case "rawtx":
 		c, _ = hex.DecodeString(j.Hex)
-		return c, "tx", false
+		cont, _ = hex.DecodeString(j.Tail)
+		return c, "tx", false, cont
+	case "rawvlen":
+		c, _ = hex.DecodeString(j.Hex)
+		return c, "vlen", false, nil
 	case "rawblock":
 		c, _ = hex.DecodeString(j.Hex)
-		return c, "block", j.DoHash
+		cont, _ = hex.DecodeString(j.Tail)
+		return c, "block", j.DoHash, cont
 	}
-	return nil, "", false
+	return nil, "", false, nil
 }
 
-func rawJob(kind string, c []byte, dohash bool) *jobSpec {
+func rawJob(kind string, c []byte, dohash bool, tail string) *jobSpec {
 	k := "rawtx"
-	if kind == "block" {
+	switch kind {
+	case "block":
 		k = "rawblock"
+	case "vlen":
+		k = "rawvlen"
 	}
-	return &jobSpec{Kind: k, Hex: hex.EncodeToString(c), DoHash: dohash, Lo: 0, Hi: 1}
+	return &jobSpec{Kind: k, Hex: hex.EncodeToString(c), Tail: tail, DoHash: dohash, Lo: 0, Hi: 1}
 }
 
 func (s *state) workerLoop(bases []base, blocks []bbase, wg *sync.WaitGroup) {
@@ -438,7 +467,7 @@ func (s *state) workerLoop(bases []base, blocks []bbase, wg *sync.WaitGroup) {
 				s.finished()
 				continue
 			}
-			c, kind, dohash := genCase(j, culprit, bases, blocks)
+			c, kind, dohash, cont := genCase(j, culprit, bases, blocks)
 			key, what := deathKey(d, kind)
 			if os.Getenv("C09_DEBUG") != "" {
 				fmt.Fprintf(os.Stderr, "death job=%s/%d/%s [%d,%d) done=%d culprit=%d case=%x key=%s\n", j.Kind, j.Base, j.Fam, j.Lo, j.Hi, done, culprit, c, key)
@@ -454,7 +483,15 @@ func (s *state) workerLoop(bases []base, blocks []bbase, wg *sync.WaitGroup) {
 				s.perFam[fam] = fs
 			}
 			fs.Evals++
-			s.deaths[key] = append(s.deaths[key], deathCase{Hex: hex.EncodeToString(c), Kind: kind, DoHash: dohash, What: what, Fam: fam})
+			s.deaths[key] = append(s.deaths[key], deathCase{Hex: hex.EncodeToString(c), Tail: hex.EncodeToString(cont), Kind: kind, DoHash: dohash, What: what, Fam: fam})
+			if d.hung {
+				// a hang costs a watchdog period each: after three in one family the rest of
+				// that family is dropped (the run is then reported as not exhaustive)
+				s.hangs[fam]++
+				if s.hangs[fam] >= 3 {
+					s.stopFam[fam] = true
+				}
+			}
 			s.mu.Unlock()
 			var nj []*jobSpec
 			if culprit > done {
@@ -551,6 +588,7 @@ func replay(file string) {
 		Replay struct {
 			Kind   string `json:"kind"`
 			Hex    string `json:"hex"`
+			Tail   string `json:"tail"`
 			DoHash bool   `json:"dohash"`
 		} `json:"replay"`
 	}
@@ -561,9 +599,9 @@ func replay(file string) {
 	if err != nil {
 		ev.HarnessError("%v", err)
 	}
-	w := spawn()
+	w := spawnWd(watchdogConfirm)
 	var res *batchResult
-	d, _, _ := w.run(rawJob(rec.Replay.Kind, c, rec.Replay.DoHash), func(lo, hi int, r *batchResult) { res = r })
+	d, _, _ := w.run(rawJob(rec.Replay.Kind, c, rec.Replay.DoHash, rec.Replay.Tail), func(lo, hi int, r *batchResult) { res = r })
 	if d != nil {
 		k, what := deathKey(d, rec.Replay.Kind)
 		fmt.Fprintf(ev.Out, "replay: worker died: %s: %s\n", k, what)
@@ -614,7 +652,7 @@ func main() {
 	}
 	blocks := buildBlocks(thor)
 	s := &state{perFam: map[string]*famStat{}, classes: map[string]int{}, shapes: map[string]int{}, viol: map[string]*violAgg{},
-		deaths: map[string][]deathCase{}, samples: &ev.Samples{N: 12}}
+		deaths: map[string][]deathCase{}, samples: &ev.Samples{N: 12}, hangs: map[string]int{}, stopFam: map[string]bool{}}
 	s.cond = sync.NewCond(&s.mu)
 
 	only := os.Getenv("C09_ONLY")
@@ -635,6 +673,9 @@ func main() {
 	shortMax := 5
 	if thor {
 		shortMax = 7
+	}
+	if want("vlen") {
+		chunk(jobSpec{Kind: "vlen"}, vlenCount(), 1500)
 	}
 	if want("short") {
 		chunk(jobSpec{Kind: "short"}, shortCount(shortMax), 1500)
@@ -702,7 +743,7 @@ func main() {
 	// worker); deaths were confirmed in a fresh worker each.
 	for k, v := range s.viol {
 		r.Report(k, fmt.Sprintf("%s [%d cases; smallest: %d bytes]", v.What, v.Count, len(v.Hex)/2),
-			map[string]interface{}{"kind": v.Kind, "hex": v.Hex, "dohash": v.DoHash})
+			map[string]interface{}{"kind": v.Kind, "hex": v.Hex, "tail": v.Tail, "dohash": v.DoHash})
 	}
 	deathCounts := map[string]int{}
 	for k, l := range s.deaths {
@@ -723,9 +764,13 @@ func main() {
 		for i := 0; i < len(l) && i < 8 && !reported; i++ {
 			c, _ := hex.DecodeString(l[i].Hex)
 			ok := true
-			for rep := 0; rep < 2 && ok; rep++ {
-				w := spawn()
-				d, _, _ := w.run(rawJob(l[i].Kind, c, l[i].DoHash), func(lo, hi int, r *batchResult) {})
+			reps := 2
+			if strings.HasPrefix(k, "hang/") {
+				reps = 1 // each repetition of a hang costs the whole confirmation watchdog
+			}
+			for rep := 0; rep < reps && ok; rep++ {
+				w := spawnWd(watchdogConfirm)
+				d, _, _ := w.run(rawJob(l[i].Kind, c, l[i].DoHash, l[i].Tail), func(lo, hi int, r *batchResult) {})
 				if d == nil {
 					w.stop()
 					ok = false
@@ -736,7 +781,7 @@ func main() {
 			if ok {
 				reported = true
 				r.Report(k, fmt.Sprintf("%s [%d cases; smallest: %d bytes: %s]", l[i].What, len(l), len(l[i].Hex)/2, l[i].Hex),
-					map[string]interface{}{"kind": l[i].Kind, "hex": l[i].Hex, "dohash": l[i].DoHash})
+					map[string]interface{}{"kind": l[i].Kind, "hex": l[i].Hex, "tail": l[i].Tail, "dohash": l[i].DoHash})
 			}
 		}
 		if !reported {
@@ -753,8 +798,18 @@ func main() {
 	}
 	// concurrent part: BuildTxListExt's hashing goroutines under the controlled scheduler
 	concurrent := r.RunSub("c09s", "concurrent")
+	var stopped []string
+	for f := range s.stopFam {
+		stopped = append(stopped, f)
+	}
+	sort.Strings(stopped)
 	r.Finish(map[string]interface{}{
-		"concurrent_part": concurrent,
+		"exhaustive":                             len(stopped) == 0,
+		"capacity_presentations":                 []string{"cap == len", "b[:len] of a longer array continuing with the rest of the valid encoding / the next transaction", "... continuing with 16 x ff", "... continuing with 16 x 00"},
+		"watchdog_seconds":                       []int{int(watchdog.Seconds()), int(watchdogConfirm.Seconds())},
+		"families_cut_short_after_three_hangs":   stopped,
+		"jobs_dropped_after_hangs":               s.dropped,
+		"concurrent_part":                        concurrent,
 		"evaluations":                            s.evals,
 		"distinct_nontrivial":                    len(s.shapes),
 		"rule":                                   "a case is non-trivial when at least one of reference / gocoin decoded a complete object from it; distinct = number of distinct (family, reference outcome, gocoin outcome, decoded shape = inputs/outputs/witness or txs/witness/hash-mode) tuples observed; worker deaths count as their own outcome",
@@ -781,6 +836,8 @@ func main() {
 	}, []string{
 		"reference reftx.DecodeTx/DecodeBlock transcribes Bitcoin Core's UnserializeTransaction (witness allowed), ReadCompactSize(range_check) and vector reading; it is validated on every transaction of the repository's tx_valid.json, tx_invalid.json and sighash.json (decode, full consumption, identical re-encoding, prevouts as listed)",
 		"allocation bound: a legitimately decoded element costs gocoin at most 24 B (slice header of an empty witness item) to 72 B (TxIn struct + pointer per >= 41 wire bytes) per wire byte it occupies, i.e. < 32 B per input byte including size-class rounding; 64*len + 64 KiB therefore holds for every proportional decoder, measured margin is in max_alloc_fraction_of_bound_on_accepted_decodes",
+		"every case is decoded four times: as a slice with cap == len and as b[:len] of three longer backing arrays; verdict, consumed size, re-serialisation, hashes and TxSize must not depend on the bytes between len and cap (keys cap/*)",
+		"families wrap / wrap2 put into every count and length field the values for which offs+n+value wraps around in int64 (-(n), -(n+1), -(offs+n), bytes left +-1, 2^63 +-1, ...), wrap2 combines a never-ending count (2^63-1, 2^64-1, 2^62+1, bytes left) in a count field with such a value in the length field of its first element; btc.TxSize is called on every case; a call that makes no progress for 60 s is killed, re-run alone with 120 s and reported as hang/<API>-does-not-return; after three hangs in a family the rest of the family is dropped and the run is not exhaustive",
 		"a zero-transaction block deserialises in Core and is refused by CheckBlock; gocoin refuses it in BuildTxListExt (same RPC result bad-blk-length): not judged",
 		"Txs[0].WTxID() of a block parsed with hashes is allowed to be all-zero (BIP141 defines the coinbase wtxid as zero for the commitment); trailing bytes after the last counted transaction of a block are left unread by both decoders",
 		"bases longer than 600 bytes get single-byte substitutions at structural positions only in the quick tier (all field bytes except the interior of scripts / witness items beyond their first and last 4 bytes); thorough substitutes every position",
